@@ -177,6 +177,12 @@ def generate(chk, rng, quick, add):
         (lst([F, b"\xff\xff"]), [lst17]),                                                        # (f 0xffff)
         (lst([F, b"\xff\x80"]), [deep_l(7, lst17)]),
         (lst([F, b"\x80\x00\x00\x00"]), [deep_l(32, b"\x09")]),                                # (f 0x80000000)
+        # former finding C04-get-u32-path (get_u32 little-endian, repaired in /repo c2e6c4f): canonical top-bit
+        # atoms of 4..9 bytes under f / r and under a chain; a regression is a fresh VIOLATION (no signature listed)
+        (lst([R, b"\x80\x00\x00\x00"]), [deep_path_env(path_after(1 << 31, [R]))]),
+        (lst([F, b"\xc0\x01\x02\x03"]), [deep_path_env(path_after(0xc0010203, [F]))]),
+        (lst([F, lst([R, b"\x80\x00\x00\x00\x00"])]), [deep_path_env(path_after(1 << 39, [R, F]))]),
+        (lst([R, b"\x9a\xbc\xde\xf0\x12\x34\x56\x78"]), [deep_path_env(path_after(0x9abcdef012345678, [R]))]),
         (lst([R, lst([C, b"", Q])]), small_envs), (q((b"", b"")), small_envs), (((A, Q), lst([b"", Q])), small_envs),
         (lst([F, b"\x80" + b"\x00" * 8]), [deep_l(72, b"\x09")]), (lst([A, q(A), A]), small_envs),
         (lst([F, Q]), small_envs), (lst([A, q(Q), A]), small_envs),
@@ -218,7 +224,8 @@ def generate(chk, rng, quick, add):
         p, env = gen.typed_case(rng, rng.randint(2, 6), ops=core)
         add("typed-core", p, [env, E4])
 
-    # 3. path atoms of 1..9 bytes under f / r and nested
+    # 3. path atoms of 1..9 bytes under f / r and nested (incl. minimal top-bit atoms of >= 4 bytes: the class of the
+    #    repaired get_u32 finding; streams 3 and 4 are what would catch its regression)
     patoms = path_atoms(rng, not quick)
     nlines = NLINES
     del nlines[:]
@@ -294,12 +301,34 @@ def generate(chk, rng, quick, add):
 
 
 
+def count_path_classes(chk, p):
+    """distribution of the path-atom classes under f / r (the classes the path theorems split on)."""
+    stack, depth = [p], 0
+    while stack:
+        x = stack.pop()
+        if not isinstance(x, tuple):
+            continue
+        h, t = x
+        if h in (F, R) and isinstance(t, tuple) and t[1] == b"" and isinstance(t[0], bytes):
+            b = t[0]
+            if not b or b[0] < 0x80:
+                cls = "nonneg"
+            elif len(b) >= 2 and b[0] == 0xff and b[1] >= 0x80:
+                cls = "sign-extended"
+            else:
+                cls = "canonical-topbit-%s" % ("ge4" if len(b) >= 4 else "lt4")
+            chk.count("path-atom-class:" + cls)
+        stack.append(h)
+        stack.append(t)
+
+
 def check_cases(chk, cases, nlines, quick):
     rng = chk.rng
     lines = []
     for stream, p, envs in cases:
         lines.append("o " + hexv(p) + " " + " ".join(hexv(e) for e in envs))
         chk.count("stream:" + stream)
+        count_path_classes(chk, p)
     for l in lines:
         chk.note_case(l.split()[1], nontrivial=True)
     chk.cov["rule"] = ("one case = one CLVM program (with 1..3 environments for the oracle); streams: exhaustive trees <= 9 nodes "
